@@ -156,6 +156,18 @@ impl VarData {
 pub type ClassifyFactResult = (Term, VarData);
 pub type ClassifyRuleResult = (Term, ChunkedTermVec, VarData);
 
+/// Does `term`, read as a clause body, contain a cut at its control level, i.e. reachable
+/// through `,`/2, `;`/2 and `->`/2 only? (Cuts below `\+`/1 or call/N are local to those.)
+fn term_has_control_cut(term: &Term) -> bool {
+    match term {
+        Term::Literal(_, Literal::Atom(atom!("!"))) => true,
+        Term::Clause(_, atom!(",") | atom!(";") | atom!("->"), terms) if terms.len() == 2 => {
+            terms.iter().any(term_has_control_cut)
+        }
+        _ => false,
+    }
+}
+
 fn merge_branch_seq(branches: impl Iterator<Item = BranchInfo>) -> BranchInfo {
     let mut branch_info = BranchInfo::new(BranchNumber::default());
 
@@ -607,18 +619,51 @@ impl VariableClassifier {
                                     false
                                 };
 
-                            state_stack.push(TraversalState::Term(then_term));
-                            state_stack.push(TraversalState::Cut {
-                                var_num: self.var_num,
-                                is_global: false,
-                            });
-                            state_stack.push(TraversalState::Term(if_term));
-                            state_stack.push(TraversalState::GetCutPoint {
-                                var_num: self.var_num,
-                                prev_b,
-                            });
+                            if term_has_control_cut(&if_term) {
+                                // A cut in the condition is local to the condition
+                                // (ISO 7.8.8.1): it must not remove the choice point of
+                                // the else branch or of the clause. The condition gets
+                                // a cut point of its own (as `\\+` does), taken after the
+                                // else branch's choice point was pushed.
+                                let commit_var = self.var_num;
+                                let cond_var = commit_var + 1;
 
-                            self.var_num += 1;
+                                state_stack.push(TraversalState::Term(then_term));
+                                state_stack.push(TraversalState::Cut {
+                                    var_num: commit_var,
+                                    is_global: false,
+                                });
+                                state_stack.push(TraversalState::ResetGlobalCutVarOverride(
+                                    self.global_cut_var_num_override,
+                                ));
+                                state_stack.push(TraversalState::Term(if_term));
+                                state_stack.push(TraversalState::OverrideGlobalCutVar(cond_var));
+
+                                state_stack.push(TraversalState::GetCutPoint {
+                                    var_num: cond_var,
+                                    prev_b: false,
+                                });
+
+                                state_stack.push(TraversalState::GetCutPoint {
+                                    var_num: commit_var,
+                                    prev_b,
+                                });
+
+                                self.var_num = cond_var + 1;
+                            } else {
+                                state_stack.push(TraversalState::Term(then_term));
+                                state_stack.push(TraversalState::Cut {
+                                    var_num: self.var_num,
+                                    is_global: false,
+                                });
+                                state_stack.push(TraversalState::Term(if_term));
+                                state_stack.push(TraversalState::GetCutPoint {
+                                    var_num: self.var_num,
+                                    prev_b,
+                                });
+
+                                self.var_num += 1;
+                            }
                         }
                         Term::Clause(_, atom!("\\+"), mut terms) if terms.len() == 1 => {
                             let not_term = terms.pop().unwrap();
